@@ -22,16 +22,21 @@ def scapy_from_bytes(raw, v):
 
 
 def load_db(text, db=None):
+    """Loads `text` as a database file.  Every load of a worker process goes through the SAME path with new contents, so that
+    anything remembered per path (instead of per contents) shows up as a stale database."""
     os.makedirs(_TMP, exist_ok=True)
-    fd, path = tempfile.mkstemp(suffix=".fp", dir=_TMP)
+    path = os.path.join(_TMP, "db-%d.fp" % os.getpid())
     try:
-        with os.fdopen(fd, "w", encoding="utf-8", newline="") as f:
+        with open(path, "w", encoding="utf-8", newline="") as f:
             f.write(text)
         db = Database() if db is None else db
         db.load(path)
         return db
     finally:
-        os.unlink(path)
+        try:
+            os.unlink(path)
+        except OSError:
+            pass
 
 
 def psig_dict(ps):
